@@ -301,7 +301,8 @@ SPEC = PropSpec(
                  "field difference. Does not decide equality for definitions outside these two (the classes and fields "
                  "are covered, their value spaces are not)."
                  ' A definition assembled from objects whose container_set lists only the root of a three-deep nesting must be written and re-loaded completely.'
-                 ' The hand-written document of R1.e3 (step spline, little-endian termination character, range comparison lists) is loaded, written and loaded again: same definition, and every packet of its decision table decodes identically with all three.'),
+                 ' The hand-written document of R1.e3 (step spline, little-endian termination character, range comparison lists) is loaded, written and loaded again: same definition, and every packet of its decision table decodes identically with all three.'
+                 ' The twins document carries time types whose polynomial is not a scale/offset pair.'),
     rule_doc="R9.rt per (definition, comparison); R9.cov per (class, constructor parameter); R9.dec decode equivalence",
     assumptions=["lxml ElementPath/ElementMaker semantics as modelled in spv/xmlmodel.py", "str(float)/float(str) are mutually inverse (CPython)"],
     mutants=mutants,
